@@ -64,6 +64,8 @@ def make_spec(case):
     ds = []
     for k in range(n):
         d = S.dataset(LABELS[k], case["axes"][k], n_model=[5, 6, 7, 8][k], megacomplexes=["m1"] if k % 2 == 0 else ["m2"])
+        if case.get("dtypes"):
+            d["axis_dtype"] = case["dtypes"][k]
         if case["weights"] == "all" or (case["weights"] == "first" and k == 0) or (case["weights"] == "last" and k == n - 1):
             d["weight"] = "dataset"
         ds.append(d)
@@ -239,6 +241,16 @@ def run(run: core.Run):
                 for m in METHODS:
                     cases.append({"axes": [pa, b], "tol": tol, "method": m, "weights": "none", "seed": run.seed})
                     cases.append({"axes": [b, pa], "tol": tol, "method": m, "weights": "last", "seed": run.seed})
+    # coordinates stored as integers / single precision in one dataset and as doubles in the other (merged points
+    # take the coordinate of their target: the aligned axis must not be narrowed back to a dataset's own type)
+    int_grid = [0.0, 1.0, 2.0, 3.0]
+    ints = [list(c) for r in (1, 2, 3) for c in itertools.combinations(int_grid, r)]
+    for a in ints:
+        for b in subsets(2, grid):
+            for tol in (0.25, 0.5, 1.0):
+                for m in METHODS:
+                    for dt in (["int", None], [None, "int"], ["float32", None]):
+                        cases.append({"axes": [a, b] if dt[0] else [b, a], "tol": tol, "method": m, "weights": "none", "seed": run.seed, "dtypes": dt})
     run.bounds["axis_orders"] = "all orderings of every 3-point axis over the first %d grid points" % (4 if quick else 5)
     run.map("provider", cases, chunksize=64)
     # end to end
